@@ -172,3 +172,93 @@ def fam_guards(n, with_aux=True):
                         yield ("guards%d/%s/aux@%d+%d-%s/%s" % (n, parents, a, b, kind, go),
                                guarded_forest_prog(names, parents, none, go, aux_at=(a, b), aux_kind=kind),
                                dict(parents=parents))
+
+
+# ------------------------------------------------------------------------------- C09 plain auxiliaries
+
+def fam_plain_aux(quick=True):
+    """main framer: f0 > {f1, f2}, f3 ; plain aux slots on each frame from {none, x, y}; x of several kinds;
+    transition/done-condition variants; `done` verbs."""
+    names = ["f0", "f1", "f2", "f3"]
+    parents = (None, 0, 0, None)
+    ctxs = ("enter", "exit", "recur")
+    variants = {
+        "bits": {1: [("go", "f2", [E0])], 2: [("go", "f3", [E1])], 3: [("go", "f1", [E0])]},
+        "auxdone": {1: [("go", "next", [("auxdone", "x", None, False)])], 2: [("go", "f3", [("auxdone", "any", None, False)])],
+                    3: [("go", "f0", [E0])]},
+        "allin": {0: [("go", "f3", [("auxdone", "all", "f0", False), E1])], 3: [("go", "f1", [E0])],
+                  1: [("go", "f2", [("auxdone", "x", "me", False)])]},
+        "taskerdone": {1: [("go", "f2", [("done", "x", False)])], 2: [("go", "f3", [("done", "y", True), E1])],
+                       3: [("go", "f0", [E0])]},
+    }
+    kinds = ("repeat1", "never", "now")
+    slots_all = list(itertools.product((None, "x", "y"), repeat=4))
+    for xkind in kinds:
+        for vname, var in variants.items():
+            for slots in slots_all:
+                if not any(slots):
+                    continue
+                if quick and sum(1 for s in slots if s) > 2:
+                    continue
+                if vname in ("auxdone", "allin") and "x" not in slots:
+                    continue          # `aux x is done` needs x to be an auxiliary of this framer
+                frames = []
+                for i, nm in enumerate(names):
+                    items = recs(nm, ctxs)
+                    if slots[i]:
+                        items.append(("aux", slots[i]))
+                    items += var.get(i, [])
+                    frames.append(dict(name=nm, over=names[parents[i]] if parents[i] is not None else None, items=items))
+                framers = [dict(name="m", schedule="active", frames=frames), aux_framer("x", xkind), aux_framer("y", "repeat1")]
+                yield ("plainaux/%s/%s/%s" % (xkind, vname, slots),
+                       dict(tick=0.125, inits=list(ENV_INITS), framers=framers), dict(slots=slots))
+    # the `done <aux>` verb issued by the main framer
+    for ctx in ("enter", "recur", "exit"):
+        frames = [dict(name="f0", items=recs("f0", ctxs) + [("aux", "x"), ("go", "f1", [E0])]),
+                  dict(name="f1", items=recs("f1", ctxs) + [("aux", "x"), ("done", ctx, ["x"]), ("go", "f0", [("auxdone", "x", None, False), E1])])]
+        framers = [dict(name="m", schedule="active", frames=frames), aux_framer("x", "never")]
+        yield ("plainaux/doneverb/%s" % ctx, dict(tick=0.125, inits=list(ENV_INITS), framers=framers), dict())
+
+
+# ------------------------------------------------------------------------------- C10 conditional auxiliaries
+
+def fam_cond_aux():
+    """chain f0 > f1 > f2 plus root f3; conditional aux `x if e0` at depth d; one transition on e1 from a chain
+    frame to any frame, before/after the aux line when on the main frame; precur recorders first (.pr) and last (.pz)."""
+    names = ["f0", "f1", "f2", "f3"]
+    parents = (None, 0, 1, None)
+    ctxs = ("enter", "exit", "recur", "precur")
+    kinds = ("now", "repeat1", "repeat2", "never", "guard1")
+    for kind in kinds:
+        for d in (0, 1, 2):
+            for s in (0, 1, 2, 3):
+                for t in ("f0", "f1", "f2", "f3", "me", None):
+                    for pos in (("before", "after") if s == d and t is not None else ("after",)):
+                        if t is None and s != 0:
+                            continue
+                        frames = []
+                        for i, nm in enumerate(names):
+                            items = recs(nm, ctxs)
+                            pre = []
+                            if t is not None and s == i:
+                                pre.append(("go", t, [E1]))
+                            if i == d:
+                                a = ("auxif", "x", [E0])
+                                pre = [a] + pre if pos == "after" else pre + [a]
+                            items = items + pre + [("rec", "precur", nm + ".pz")]
+                            if i == 3 and not (s == 3 and t is not None):
+                                items.append(("go", "f0", [E1]))
+                            frames.append(dict(name=nm, over=names[parents[i]] if parents[i] is not None else None, items=items))
+                        framers = [dict(name="m", schedule="active", frames=frames), aux_framer_ext("x", kind)]
+                        yield ("condaux/%s/d%d/go%s->%s/%s" % (kind, d, s, t, pos),
+                               dict(tick=0.125, inits=list(ENV_INITS), framers=framers), dict(depth=d, main=names[d]))
+
+
+def aux_framer_ext(name, kind):
+    if kind == "repeat2":
+        x1, x2 = name + "1", name + "2"
+        ctxs = ("enter", "exit", "recur")
+        return dict(name=name, schedule="aux", frames=[
+            dict(name=x1, items=recs(x1, ctxs) + [("repeat", 2)]),
+            dict(name=x2, items=recs(x2, ctxs) + [("done", "enter", None)])])
+    return aux_framer(name, kind)
